@@ -10,7 +10,7 @@ of sized / unsized reads and seek(0).
 import io
 import os
 from boltons import ioutils
-from vf.rt import cz, pin, pinval, assume, fail, done, notrace
+from vf.rt import internal, cz, pin, pinval, assume, fail, done, notrace
 from vf.check import Ob
 
 PROPERTY = 'C18'
@@ -106,7 +106,7 @@ def _spool_body(text, preset, script):
                     return fail('spooled_content_after_%s' % op, where)
                 if sp.tell() != ref.tell():
                     return fail('spooled_tell_after_getvalue', where)
-            rolled_seen = rolled_seen or sp._rolled
+            rolled_seen = rolled_seen or internal(sp, '_rolled')
         finally:
             sp.close()
     return done(True, kind='rolled' if rolled_seen else 'memory', text=text, script=script)
